@@ -257,8 +257,21 @@ fn merge_counter(m: &mut BTreeMap<String, u64>, k: &str, v: u64) {
     }
 }
 
+/// CPU time (user+system) consumed so far by process `pid`, in seconds.
+fn cpu_seconds(pid: u32) -> Option<f64> {
+    let stat = std::fs::read_to_string(format!("/proc/{pid}/stat")).ok()?;
+    // fields after the ")" that ends the command name; utime and stime are the 12th and 13th of those
+    let rest = &stat[stat.rfind(')')? + 1..];
+    let f: Vec<&str> = rest.split_whitespace().collect();
+    let utime: f64 = f.get(11)?.parse().ok()?;
+    let stime: f64 = f.get(12)?.parse().ok()?;
+    Some((utime + stime) / 100.0)
+}
+
 struct ShardState {
     pid: Option<u32>,
+    /// CPU seconds of the worker when the current case was announced
+    case_cpu0: Option<f64>,
     case_started: Option<Instant>,
     killed_by_watchdog: bool,
     done: bool,
@@ -321,7 +334,9 @@ fn run_child(
         let Ok(line) = line else { break };
         if let Some(r) = line.strip_prefix("B ") {
             cur = r.trim().parse().ok();
-            st.lock().unwrap().case_started = Some(Instant::now());
+            let mut g = st.lock().unwrap();
+            g.case_started = Some(Instant::now());
+            g.case_cpu0 = g.pid.and_then(cpu_seconds);
         } else if let Some(r) = line.strip_prefix("A ") {
             if let Ok(v) = serde_json::from_str::<Value>(r) {
                 let mut a = agg.lock().unwrap();
@@ -415,6 +430,7 @@ fn run_lane(
         .map(|_| {
             Arc::new(Mutex::new(ShardState {
                 pid: None,
+                case_cpu0: None,
                 case_started: None,
                 killed_by_watchdog: false,
                 done: false,
@@ -434,7 +450,14 @@ fn run_lane(
         for s in &wd_states {
             let mut s = s.lock().unwrap();
             if let (Some(pid), Some(t0)) = (s.pid, s.case_started) {
-                if t0.elapsed() > watchdog && !s.killed_by_watchdog {
+                // The budget is CPU time of the worker, so that a loaded machine cannot turn a
+                // slow case into a "hang"; wall clock only as a very generous backstop.
+                let cpu_used = match (cpu_seconds(pid), s.case_cpu0) {
+                    (Some(now), Some(c0)) => now - c0,
+                    _ => 0.0,
+                };
+                let over = cpu_used > watchdog.as_secs_f64() || t0.elapsed() > watchdog * 20;
+                if over && !s.killed_by_watchdog {
                     s.killed_by_watchdog = true;
                     let _ = Command::new("kill").arg("-9").arg(pid.to_string()).status();
                 }
@@ -529,7 +552,7 @@ fn run_lane(
                                 a.violations.push(json!({
                                     "idx": i, "lane": lane,
                                     "sig": "hang:watchdog",
-                                    "what": format!("case did not finish within the {}s watchdog, three times in a row", watchdog.as_secs()),
+                                    "what": format!("case did not finish within {}s of CPU time, three times in a row", watchdog.as_secs()),
                                     "witness": {"watchdog_s": watchdog.as_secs()},
                                     "needs_describe": true,
                                 }));
